@@ -209,6 +209,27 @@ func (f *Frame) external(fn *ssa.Function, args []Val, c *ssa.CallCommon, pos to
 	case "strconv.Itoa":
 		vc.sc.decl("strconv.Itoa", "(declare-fun strconv.Itoa (Int) String)")
 		return Val{t: app("strconv.Itoa", a(0)), typ: strT}, false
+	case "strings.Split":
+		// a fresh slice whose length is a function of the arguments: at least 1, exactly 1 iff the
+		// (non-empty) separator does not occur, in which case the only part is the string itself
+		vc.sc.decl("strings.SplitLen", "(declare-fun strings.SplitLen (String String) Int)")
+		res := vc.freshResult(f, sig.Results(), "Split")
+		s, sep := a(0), a(1)
+		n := app("strings.SplitLen", s, sep)
+		if !hasBound(n) {
+			key := "inst:" + n
+			if !vc.sc.declSet[key] {
+				vc.sc.declSet[key] = true
+				vc.sc.assume(and(app(">=", n, "1"), implies(not(eq(sep, smtString(""))), eq(eq(n, "1"), not(app("str.contains", s, sep))))))
+			}
+		}
+		f.assume(eq(app("s_len", res.t), n))
+		if st, ok := res.typ.Underlying().(*types.Slice); ok {
+			l, li := locElem(st.Elem())
+			row := app("select", vc.he.get(f.cur, l, li.sort(vc.te)), app("s_arr", res.t))
+			f.assume(implies(eq(n, "1"), eq(app("select", row, app("s_off", res.t)), s)))
+		}
+		return res, false
 	case "slices.Contains":
 		r := vc.freshVal("slices.Contains", boolT)
 		if st, ok := args[0].typ.Underlying().(*types.Slice); ok && !isStruct(st.Elem()) {
